@@ -1,5 +1,544 @@
-import Bkl
+/-
+  C03 — "The inheritance chain is resolved from filenames and `$parent`, base first".
+
+  Model: `Bkl/Files.lean` (`fileParents`, `loadFileAndParents`, `mergeFiles`, `cliRun`).
+  Helper definitions used in the statements (all in `BklProofs/Lemmas/Files.lean`):
+  `PlainDir fs d` (an existing directory reached without symlinks), `LayerFile fs d layer e c`
+  (layer `layer` is provided by exactly the file `layer.e` of `d`, with content `c`),
+  `globName fs path n` (the files one `$parent` name stands for), `cliMerge` / `cliStep`
+  (the input loop of cmd/bkl), `aloneDocs` (what `-P` merges).
+-/
+import BklProofs.Lemmas.Files
+import BklProofs.Lemmas.FilesRename
 namespace Bkl
-/-- placeholder until the property theorems land -/
-theorem C03_placeholder : validate (.int 1) = .ok () := by simp [validate]; rfl
+
+/-! ## the filename rule -/
+
+/-- Without a `$parent` directive and without symlinks the parents of `p` come from its base
+    name split on ".": fewer than two parts is an error, two parts (`a.yaml`) mean no parent,
+    otherwise the parent is the file found for the layer "base name minus its last two parts";
+    a layer that no file provides is an error (never silently skipped). -/
+theorem C03_filename_parent (fs : FS) (p : Comps) (docs : List Val)
+    (hdocs : ∀ d ∈ docs, parentDirective d = .ok .absent)
+    (hlink : fs.evalSymlinks p = some p) :
+    let parts := (baseOf p).splitOn "."
+    let layer := ".".intercalate (parts.take (parts.length - 2))
+    (parts.length < 2 → fileParents fs p docs = .error .invalidFilename) ∧
+    (parts.length = 2 → fileParents fs p docs = .ok []) ∧
+    (3 ≤ parts.length →
+      (∀ f, fs.findFile (dirOf p) layer = some f → fileParents fs p docs = .ok [f]) ∧
+      (fs.findFile (dirOf p) layer = none → fileParents fs p docs = .error .missingFile)) := by
+  intro parts layer
+  rw [fileParents_no_directive fs p docs hdocs, hlink]
+  simp only [fromName]
+  refine ⟨?_, ?_, ?_⟩
+  · intro h
+    rw [if_pos h]
+  · intro h
+    have h1 : ¬ parts.length < 2 := by omega
+    rw [if_neg h1]
+    simp [parts, h]
+  · intro h
+    have h1 : ¬ parts.length < 2 := by omega
+    have h2 : (parts.length == 2) = false := by
+      simp only [beq_eq_false_iff_ne]; omega
+    rw [if_neg h1]
+    simp only [parts] at h2
+    simp only [h2, Bool.false_eq_true, if_false]
+    refine ⟨?_, ?_⟩
+    · intro f hf
+      simp only [layer, parts] at hf
+      rw [hf]
+    · intro hf
+      simp only [layer, parts] at hf
+      rw [hf]
+
+/-- non-vacuity: `/w/a.b.json` in the sample file system -/
+example : (∀ d ∈ [Val.map [("y", .int 2)]], parentDirective d = .ok .absent) ∧
+    chainFS.evalSymlinks ["w", "a.b.json"] = some ["w", "a.b.json"] := by
+  refine ⟨?_, evalSymlinks_layerFile chainFS_plain (by decide) chainFS_ab⟩
+  intro d hd
+  have : d = Val.map [("y", .int 2)] := by simpa using hd
+  subst this; rfl
+
+/-- What a candidate returned by `findFile` is: `layer.e` for a supported `e`, existing. -/
+theorem C03_findFile_spec (fs : FS) (dir : Comps) (layer : String) (f : Comps)
+    (h : fs.findFile dir layer = some f) :
+    ∃ e, e ∈ supportedExts ∧ f = dir ++ [layer ++ "." ++ e] ∧ fs.exists f = true :=
+  findFile_some fs dir layer f h
+
+example : chainFS.findFile ["w"] "a.b" = some ["w", "a.b.json"] :=
+  findFile_layerFile chainFS_plain (by decide) chainFS_ab
+
+/-- Concrete names: `a.b.c.yaml → a.b`, `a.b.yaml → a`, `a.yaml` has two parts (no parent),
+    `Makefile` has one (invalid). -/
+theorem C03_filename_layers :
+    (let parts := "a.b.c.yaml".splitOn "."
+     ".".intercalate (parts.take (parts.length - 2)) = "a.b") ∧
+    (let parts := "a.b.yaml".splitOn "."
+     ".".intercalate (parts.take (parts.length - 2)) = "a") ∧
+    ("a.yaml".splitOn ".").length = 2 ∧ ("Makefile".splitOn ".").length = 1 := by
+  simp only [splitOn_dot]
+  decide
+
+/-- The same for any supported extension `e` (symbolic): the parents of `d/a.b.c.e`, `d/a.b.e`
+    and `d/a.e`, given by the file found for the layer. -/
+theorem C03_filename_parent_ext (fs : FS) (d : Comps) (e : String) (he : e ∈ supportedExts) :
+    fromName fs (d ++ ["a.b.c" ++ "." ++ e]) =
+      (match fs.findFile d "a.b" with | some f => .ok [f] | none => .error .missingFile) ∧
+    fromName fs (d ++ ["a.b" ++ "." ++ e]) =
+      (match fs.findFile d "a" with | some f => .ok [f] | none => .error .missingFile) ∧
+    fromName fs (d ++ ["a" ++ "." ++ e]) = .ok [] := by
+  have hd := supportedExt_noDot e he
+  refine ⟨?_, ?_, ?_⟩
+  · rw [fromName_snoc fs d _ e hd, parts_abc]
+    have : ".".intercalate (["a", "b", "c"] : List String).dropLast = "a.b" := by decide
+    rw [this]; rfl
+  · rw [fromName_snoc fs d _ e hd, parts_ab]
+    have : ".".intercalate (["a", "b"] : List String).dropLast = "a" := by decide
+    rw [this]; rfl
+  · rw [fromName_snoc fs d _ e hd, parts_a]; rfl
+
+example : "toml" ∈ supportedExts := by decide
+
+/-- a missing layer is an error: `/w/orphan.x.yaml` has no `orphan.*` -/
+example : fileParents chainFS ["w", "orphan.x.yaml"] [.map []] = .error .missingFile := by
+  have hl : chainFS.evalSymlinks (["w"] ++ ["orphan.x.yaml"]) = some (["w"] ++ ["orphan.x.yaml"]) :=
+    evalSymlinks_file (n := .file (.ok [.map []])) chainFS_plain (by decide) (by decide) rfl
+  have hn : chainFS.findFile ["w"] "orphan" = none :=
+    findFile_none_of_missing chainFS_plain (by decide) (by
+      intro e he
+      simp only [supportedExts, List.mem_cons, List.not_mem_nil, or_false] at he
+      rcases he with rfl | rfl | rfl | rfl | rfl | rfl <;> decide)
+  have h3 := C03_filename_parent chainFS ["w", "orphan.x.yaml"] [.map []]
+    (by intro d hd; have : d = Val.map [] := by simpa using hd
+        subst this; rfl) hl
+  simp only [] at h3
+  have hparts : (baseOf ["w", "orphan.x.yaml"]).splitOn "." = ["orphan", "x", "yaml"] := by
+    rw [splitOn_dot]; decide
+  rw [hparts] at h3
+  exact (h3.2.2 (by decide)).2 hn
+
+/-! ## base first -/
+
+/-- Depth 3, symbolic extensions and documents: if the layers `a`, `a.b`, `a.b.c` of a
+    link-free directory `d` are provided by exactly one file each (`a.e₁`, `a.b.e₂`, `a.b.c.e₃`,
+    any supported extensions), each holding one document without `$parent`, then loading
+    `d/a.b.c.e₃` (no root restriction) returns the three files **base first**
+    `[a.e₁, a.b.e₂, a.b.c.e₃]`, each document pointing at the document of the next lower layer. -/
+theorem C03_chain_order (fs : FS) (d cwd : Comps) (e₁ e₂ e₃ : String) (v₁ v₂ v₃ : Val)
+    (hd : PlainDir fs d)
+    (h₁ : LayerFile fs d "a" e₁ (.ok [v₁])) (h₂ : LayerFile fs d "a.b" e₂ (.ok [v₂]))
+    (h₃ : LayerFile fs d "a.b.c" e₃ (.ok [v₃]))
+    (a₁ : parentDirective v₁ = .ok .absent) (a₂ : parentDirective v₂ = .ok .absent)
+    (a₃ : parentDirective v₃ = .ok .absent) :
+    let p₁ := d ++ ["a" ++ "." ++ e₁]
+    let p₂ := d ++ ["a.b" ++ "." ++ e₂]
+    let p₃ := d ++ ["a.b.c" ++ "." ++ e₃]
+    let id₃ := pathStr p₃
+    let id₂ := id₃ ++ "|" ++ pathStr p₂
+    let id₁ := id₂ ++ "|" ++ pathStr p₁
+    loadFileAndParents fs ⟨[], cwd⟩ loadFuel p₃ none [] [] =
+      .ok ([{ id := id₁, path := p₁, docs := [oneDoc id₁ [] v₁] },
+            { id := id₂, path := p₂, docs := [oneDoc id₂ [id₁ ++ "|doc" ++ toString 0] v₂] },
+            { id := id₃, path := p₃, docs := [oneDoc id₃ [id₂ ++ "|doc" ++ toString 0] v₃] }],
+           [id₃ ++ "|doc" ++ toString 0]) :=
+  chain3 hd h₁ h₂ h₃ a₁ a₂ a₃ 61 none [] [] rfl rfl rfl
+
+/-- Depth 2. -/
+theorem C03_chain_order_2 (fs : FS) (d cwd : Comps) (e₁ e₂ : String) (v₁ v₂ : Val)
+    (hd : PlainDir fs d)
+    (h₁ : LayerFile fs d "a" e₁ (.ok [v₁])) (h₂ : LayerFile fs d "a.b" e₂ (.ok [v₂]))
+    (a₁ : parentDirective v₁ = .ok .absent) (a₂ : parentDirective v₂ = .ok .absent) :
+    let p₁ := d ++ ["a" ++ "." ++ e₁]
+    let p₂ := d ++ ["a.b" ++ "." ++ e₂]
+    let id₂ := pathStr p₂
+    let id₁ := id₂ ++ "|" ++ pathStr p₁
+    loadFileAndParents fs ⟨[], cwd⟩ loadFuel p₂ none [] [] =
+      .ok ([{ id := id₁, path := p₁, docs := [oneDoc id₁ [] v₁] },
+            { id := id₂, path := p₂, docs := [oneDoc id₂ [id₁ ++ "|doc" ++ toString 0] v₂] }],
+           [id₂ ++ "|doc" ++ toString 0]) :=
+  chain2 hd h₁ h₂ a₁ a₂ 62 none [] [] rfl rfl
+
+/-- Hence the merge order: layering `d/a.b.c.e₃` onto a parser state merges the three documents
+    base first. -/
+theorem C03_chain_merge (fs : FS) (d cwd : Comps) (e₁ e₂ e₃ : String) (v₁ v₂ v₃ : Val)
+    (hd : PlainDir fs d)
+    (h₁ : LayerFile fs d "a" e₁ (.ok [v₁])) (h₂ : LayerFile fs d "a.b" e₂ (.ok [v₂]))
+    (h₃ : LayerFile fs d "a.b.c" e₃ (.ok [v₃]))
+    (a₁ : parentDirective v₁ = .ok .absent) (a₂ : parentDirective v₂ = .ok .absent)
+    (a₃ : parentDirective v₃ = .ok .absent) (st : PState) :
+    let p₁ := d ++ ["a" ++ "." ++ e₁]
+    let p₂ := d ++ ["a.b" ++ "." ++ e₂]
+    let p₃ := d ++ ["a.b.c" ++ "." ++ e₃]
+    let id₃ := pathStr p₃
+    let id₂ := id₃ ++ "|" ++ pathStr p₂
+    let id₁ := id₂ ++ "|" ++ pathStr p₁
+    mergeFileLayers fs ⟨[], cwd⟩ st p₃ =
+      runMerges st [oneDoc id₁ [] v₁, oneDoc id₂ [id₁ ++ "|doc" ++ toString 0] v₂,
+        oneDoc id₃ [id₂ ++ "|doc" ++ toString 0] v₃] := by
+  intro p₁ p₂ p₃ id₃ id₂ id₁
+  rw [mergeFileLayers_eq, C03_chain_order fs d cwd e₁ e₂ e₃ v₁ v₂ v₃ hd h₁ h₂ h₃ a₁ a₂ a₃]
+  simp only []
+  rw [mergeFiles_eq]
+  rfl
+
+/-- Corollary: the order of the loaded paths. -/
+theorem C03_chain_paths (fs : FS) (d cwd : Comps) (e₁ e₂ e₃ : String) (v₁ v₂ v₃ : Val)
+    (hd : PlainDir fs d)
+    (h₁ : LayerFile fs d "a" e₁ (.ok [v₁])) (h₂ : LayerFile fs d "a.b" e₂ (.ok [v₂]))
+    (h₃ : LayerFile fs d "a.b.c" e₃ (.ok [v₃]))
+    (a₁ : parentDirective v₁ = .ok .absent) (a₂ : parentDirective v₂ = .ok .absent)
+    (a₃ : parentDirective v₃ = .ok .absent) :
+    ∃ files ids, loadFileAndParents fs ⟨[], cwd⟩ loadFuel (d ++ ["a.b.c" ++ "." ++ e₃]) none [] [] =
+        .ok (files, ids) ∧
+      files.map (·.path) = [d ++ ["a" ++ "." ++ e₁], d ++ ["a.b" ++ "." ++ e₂], d ++ ["a.b.c" ++ "." ++ e₃]] ∧
+      files.map (fun f => f.docs.map (·.data)) = [[v₁], [v₂], [v₃]] :=
+  ⟨_, _, C03_chain_order fs d cwd e₁ e₂ e₃ v₁ v₂ v₃ hd h₁ h₂ h₃ a₁ a₂ a₃, rfl, rfl⟩
+
+/-- non-vacuity: /w/a.yaml, /w/a.b.json, /w/a.b.c.toml (mixed formats) -/
+example : PlainDir chainFS ["w"] ∧
+    LayerFile chainFS ["w"] "a" "yaml" (.ok [.map [("x", .int 1)]]) ∧
+    LayerFile chainFS ["w"] "a.b" "json" (.ok [.map [("y", .int 2)]]) ∧
+    LayerFile chainFS ["w"] "a.b.c" "toml" (.ok [.map [("z", .int 3)]]) ∧
+    parentDirective (.map [("x", .int 1)]) = .ok .absent ∧
+    parentDirective (.map [("y", .int 2)]) = .ok .absent ∧
+    parentDirective (.map [("z", .int 3)]) = .ok .absent :=
+  ⟨chainFS_plain, chainFS_a, chainFS_ab, chainFS_abc, rfl, rfl, rfl⟩
+
+/-! ## `$parent` has priority -/
+
+/-- If the documents carry `$parent` names (and no `$parent: false/null`), the parents are the
+    glob matches of those names, relative to the file's directory, in order; a name matching
+    nothing is an error.  Neither `evalSymlinks path` nor `findFile` occurs on the right-hand
+    side: the symlink and filename rules are not consulted. -/
+theorem C03_priority (fs : FS) (path : Comps) (docs : List Val) (dirs : List ParentDir)
+    (hd : docs.mapM parentDirective = .ok dirs) (hnp : hasNoParent dirs = false)
+    (hn : parentNames dirs ≠ []) :
+    fileParents fs path docs =
+      if (parentNames dirs).any (fun n => (globName fs path n).isEmpty) then .error .missingFile
+      else .ok ((parentNames dirs).flatMap (globName fs path)) := by
+  rw [fileParents_eq, hd]
+  have : (parentNames dirs).isEmpty = false := by
+    cases h : parentNames dirs with
+    | nil => exact absurd h hn
+    | cons a l => rfl
+  simp only [hnp, this, Bool.false_eq_true, if_false, Bool.not_false, if_true]
+  rw [globStep_foldlM]
+  rfl
+
+/-- One document with `$parent: "x"`: the glob of `x` next to the file. -/
+theorem C03_priority_str (fs : FS) (path : Comps) (kvs : Fields) (x : String)
+    (h : fget kvs "$parent" = some (.str x)) :
+    fileParents fs path [.map kvs] =
+      let target := cleanComps (dirOf path ++ splitPath x)
+      let ms := fs.globFiles (dirOf target) (baseOf target)
+      if ms.isEmpty then .error .missingFile else .ok ms := by
+  have hd : [Val.map kvs].mapM parentDirective = .ok [.names [x]] := by
+    rw [mapM_R_cons, mapM_R_nil, parentDirective_map, h]
+  rw [C03_priority fs path _ _ hd rfl (by simp [parentNames])]
+  simp [parentNames, globName]
+
+example : fget [("$parent", Val.str "a")] "$parent" = some (.str "a") := by decide
+
+/-- non-vacuity of the general form -/
+example : [Val.map [("$parent", .str "a")], .map [("x", .int 1)]].mapM parentDirective =
+      .ok [.names ["a"], .absent] ∧
+    hasNoParent [.names ["a"], .absent] = false ∧ parentNames [.names ["a"], .absent] ≠ [] := by
+  refine ⟨?_, rfl, by simp [parentNames]⟩
+  rw [mapM_R_cons, mapM_R_cons, mapM_R_nil]; rfl
+
+/-- the self-parent file: `$parent: a` in `/a.yaml` resolves to `/a.yaml` itself -/
+example : fileParents selfFS ["a.yaml"] [.map [("$parent", .str "a")]] = .ok [["a.yaml"]] :=
+  selfFS_parents
+
+/-! ## stopping the chain -/
+
+/-- `$parent: false` / `$parent: null` are "no parent"; `$parent: true` is invalid. -/
+theorem C03_stop_directive (kvs : Fields) :
+    (fget kvs "$parent" = some (.bool false) → parentDirective (.map kvs) = .ok .noParent) ∧
+    (fget kvs "$parent" = some .null → parentDirective (.map kvs) = .ok .noParent) ∧
+    (fget kvs "$parent" = some (.bool true) → parentDirective (.map kvs) = .error .invalidParent) := by
+  refine ⟨?_, ?_, ?_⟩ <;> intro h <;> rw [parentDirective_map, h] <;> rfl
+
+/-- With a "no parent" directive (and no name directive) the file has no parents, whatever its
+    name or symlink says; together with a name directive it is a conflict; an invalid directive
+    anywhere is `invalidParent`. -/
+theorem C03_stop (fs : FS) (path : Comps) (docs : List Val) :
+    (∀ dirs, docs.mapM parentDirective = .ok dirs → hasNoParent dirs = true →
+      parentNames dirs = [] → fileParents fs path docs = .ok []) ∧
+    (∀ dirs, docs.mapM parentDirective = .ok dirs → hasNoParent dirs = true →
+      parentNames dirs ≠ [] → fileParents fs path docs = .error .conflictingParent) ∧
+    (∀ d e, d ∈ docs → parentDirective d = .error e →
+      fileParents fs path docs = .error .invalidParent) := by
+  refine ⟨?_, ?_, ?_⟩
+  · intro dirs hd hnp hn
+    rw [fileParents_eq, hd]
+    simp [hnp, hn]
+  · intro dirs hd hnp hn
+    rw [fileParents_eq, hd]
+    have : (parentNames dirs).isEmpty = false := by
+      cases h : parentNames dirs with
+      | nil => exact absurd h hn
+      | cons a l => rfl
+    simp [hnp, this]
+  · intro d e hmem he
+    obtain ⟨e', he'⟩ := mapM_R_error_of_mem parentDirective docs hmem he
+    have : e' = .invalidParent := by
+      obtain ⟨l1, a, l2, _, _, ha⟩ := (mapM_R_error_iff _ _ _).1 he'
+      exact parentDirective_error a e' ha
+    subst this
+    rw [fileParents_eq, he']
+
+example : [Val.map [("$parent", .bool false)]].mapM parentDirective = .ok [.noParent] ∧
+    hasNoParent [.noParent] = true ∧ parentNames [.noParent] = [] := by
+  refine ⟨?_, rfl, rfl⟩
+  rw [mapM_R_cons, mapM_R_nil]; rfl
+
+example : [Val.map [("$parent", .bool false)], .map [("$parent", .str "a")]].mapM parentDirective =
+      .ok [.noParent, .names ["a"]] ∧
+    hasNoParent [.noParent, .names ["a"]] = true ∧ parentNames [.noParent, .names ["a"]] ≠ [] := by
+  refine ⟨?_, rfl, by simp [parentNames]⟩
+  rw [mapM_R_cons, mapM_R_cons, mapM_R_nil]; rfl
+
+example : Val.map [("$parent", .bool true)] ∈ [Val.map [("x", .int 1)], .map [("$parent", .bool true)]] ∧
+    parentDirective (.map [("$parent", .bool true)]) = .error .invalidParent :=
+  ⟨by simp, rfl⟩
+
+/-- single-document instances -/
+theorem C03_stop_single (fs : FS) (path : Comps) (kvs : Fields) :
+    (fget kvs "$parent" = some (.bool false) → fileParents fs path [.map kvs] = .ok []) ∧
+    (fget kvs "$parent" = some .null → fileParents fs path [.map kvs] = .ok []) ∧
+    (fget kvs "$parent" = some (.bool true) →
+      fileParents fs path [.map kvs] = .error .invalidParent) ∧
+    (∀ kvs' x, fget kvs "$parent" = some (.bool false) → fget kvs' "$parent" = some (.str x) →
+      fileParents fs path [.map kvs, .map kvs'] = .error .conflictingParent) := by
+  have hs := C03_stop_directive kvs
+  refine ⟨?_, ?_, ?_, ?_⟩
+  · intro h
+    have hd : [Val.map kvs].mapM parentDirective = .ok [.noParent] := by
+      rw [mapM_R_cons, mapM_R_nil, hs.1 h]
+    exact (C03_stop fs path _).1 _ hd rfl rfl
+  · intro h
+    have hd : [Val.map kvs].mapM parentDirective = .ok [.noParent] := by
+      rw [mapM_R_cons, mapM_R_nil, hs.2.1 h]
+    exact (C03_stop fs path _).1 _ hd rfl rfl
+  · intro h
+    exact (C03_stop fs path _).2.2 _ _ List.mem_cons_self (hs.2.2 h)
+  · intro kvs' x h h'
+    have hd : [Val.map kvs, Val.map kvs'].mapM parentDirective = .ok [.noParent, .names [x]] := by
+      rw [mapM_R_cons, mapM_R_cons, mapM_R_nil, hs.1 h, parentDirective_map kvs', h']
+    exact (C03_stop fs path _).2.1 _ hd rfl (by simp [parentNames])
+
+example : fget [("$parent", Val.bool false), ("x", .int 1)] "$parent" = some (.bool false) ∧
+    fget [("$parent", Val.null)] "$parent" = some .null ∧
+    fget [("$parent", Val.bool true)] "$parent" = some (.bool true) := by decide
+
+/-! ## wildcards do not cross dots -/
+
+/-- Everything `globFiles dir base` returns is `dir/n` for a name `n` that matches `base.*`
+    with exactly as many dots as the pattern (so `*` never matched across a dot) and a supported
+    extension. -/
+theorem C03_wildcard_no_dot (fs : FS) (dir : Comps) (base : String) :
+    ∀ f ∈ fs.globFiles dir base,
+      countDots (baseOf f) = countDots (base ++ ".*") ∧
+      supportedExts.contains (extOf (baseOf f)) = true ∧
+      dirOf f = dir ∧
+      globMatch (base ++ ".*").toList (baseOf f).toList
+        ((base ++ ".*").length + (baseOf f).length + 1) = true := by
+  intro f hf
+  obtain ⟨rdir, n, _, rfl, hn⟩ := mem_globFiles hf
+  obtain ⟨h1, h2, h3, _⟩ := mem_globNames hn
+  rw [baseOf_snoc, dirOf_snoc]
+  exact ⟨h2, h3, rfl, h1⟩
+
+example : ["a.yaml"] ∈ selfFS.globFiles [] "a" := by
+  rw [globFiles_singleton (rdir := []) (by decide) selfFS_glob]
+  exact List.mem_cons_self
+
+/-! ## inputs left to right, `-P` -/
+
+/-- `cliRun` is: set the root, run the input loop `cliMerge` from the empty parser state, then
+    output. -/
+theorem C03_cliRun_is_loop (fs : FS) (cwd : Comps) (env : Vars) (opts : CliOpts) :
+    cliRun fs cwd env opts =
+      match cliCfg fs cwd opts with
+      | .error e => .error e
+      | .ok cfg =>
+        match cliMerge fs cwd cfg opts.skipParent (PState.empty, none) opts.inputs with
+        | .error e => .error e
+        | .ok acc => cliOutput env opts acc :=
+  cliRun_eq fs cwd env opts
+
+/-- Two inputs: the second is layered on the parser state the first produced; the output
+    format defaults to the first input's. -/
+theorem C03_inputs_left_to_right (fs : FS) (cwd : Comps) (cfg : RootCfg) (i₁ i₂ : String)
+    (r₁ r₂ : Comps) (f₁ f₂ : String) (st₁ st₂ : PState)
+    (h₁ : fileMatch fs cwd i₁ = .ok (r₁, f₁)) (h₂ : fileMatch fs cwd i₂ = .ok (r₂, f₂))
+    (m₁ : mergeFileLayers fs cfg PState.empty r₁ = .ok st₁)
+    (m₂ : mergeFileLayers fs cfg st₁ r₂ = .ok st₂) :
+    cliMerge fs cwd cfg false (PState.empty, none) [i₁, i₂] = .ok (st₂, some f₁) := by
+  simp [cliMerge, cliStep, h₁, h₂, m₁, m₂]
+
+/-- non-vacuity: `bkl a.yaml a.json` in /w of the sample file system (both name `/w/a.yaml`) -/
+example : fileMatch chainFS ["w"] "a.yaml" = .ok (["w", "a.yaml"], "yaml") ∧
+    fileMatch chainFS ["w"] "a.json" = .ok (["w", "a.yaml"], "json") ∧
+    mergeFileLayers chainFS ⟨[], ["w"]⟩ PState.empty ["w", "a.yaml"] =
+      .ok ⟨[("/w/a.yaml|doc0", .map [("x", .int 1)])], [("/w/a.yaml|doc0", [])]⟩ ∧
+    mergeFileLayers chainFS ⟨[], ["w"]⟩
+        ⟨[("/w/a.yaml|doc0", .map [("x", .int 1)])], [("/w/a.yaml|doc0", [])]⟩ ["w", "a.yaml"] =
+      .ok ⟨[("/w/a.yaml|doc0", .map [("x", .int 1)]), ("/w/a.yaml|doc0", .map [("x", .int 1)])],
+        [("/w/a.yaml|doc0", [])]⟩ := by
+  refine ⟨chainFS_match_a, chainFS_match_a_json, ?_, ?_⟩
+  · rw [chainFS_layers_a]; rfl
+  · rw [chainFS_layers_a]; rfl
+
+/-- In general the loop is a left fold: running `l₁ ++ l₂` is running `l₁`, then `l₂` from
+    the state reached. -/
+theorem C03_inputs_append (fs : FS) (cwd : Comps) (cfg : RootCfg) (sp : Bool)
+    (l₁ l₂ : List String) (acc : PState × Option String) :
+    cliMerge fs cwd cfg sp acc (l₁ ++ l₂) =
+      match cliMerge fs cwd cfg sp acc l₁ with
+      | .error e => .error e
+      | .ok acc' => cliMerge fs cwd cfg sp acc' l₂ :=
+  cliMerge_append fs cwd cfg sp l₁ l₂ acc
+
+/-- `-P`: every input is merged alone — its own documents only, `$parent` stripped, no parent
+    links — so `fileParents` is never consulted: the result depends on the file system only
+    through `loadFile` of that one path. -/
+theorem C03_skip_parent (fs : FS) (cwd : Comps) (cfg : RootCfg) (st : PState) (p : Comps) :
+    mergeFileAlone fs cfg st p =
+      (match loadFile fs cfg p (pathStr p) with
+        | .error e => .error e
+        | .ok raw => runMerges st (aloneDocs p raw)) ∧
+    (∀ raw, ∀ d ∈ aloneDocs p raw, d.parents = [] ∧ ∃ v ∈ raw, d.data = stripParent v) ∧
+    (∀ fs', loadFile fs' cfg p (pathStr p) = loadFile fs cfg p (pathStr p) →
+      mergeFileAlone fs' cfg st p = mergeFileAlone fs cfg st p) ∧
+    (∀ (acc : PState × Option String) (inp : String) (real : Comps) (f : String),
+      fileMatch fs cwd inp = .ok (real, f) →
+      cliStep fs cwd cfg true acc inp =
+        match mergeFileAlone fs cfg acc.1 real with
+        | .error e => .error e
+        | .ok st' => .ok (st', if acc.2.isNone then some f else acc.2)) := by
+  refine ⟨mergeFileAlone_eq fs cfg st p, ?_, ?_, ?_⟩
+  · intro raw d hd
+    unfold aloneDocs at hd
+    obtain ⟨⟨v, i⟩, hvi, rfl⟩ := List.mem_map.1 hd
+    refine ⟨rfl, ?_⟩
+    have : v ∈ raw.map stripParent := (List.mem_zipIdx hvi).2.2 ▸ List.getElem_mem _
+    obtain ⟨w, hw, rfl⟩ := List.mem_map.1 this
+    exact ⟨w, hw, rfl⟩
+  · intro fs' h
+    rw [mergeFileAlone_eq, mergeFileAlone_eq, h]
+  · intro acc inp real f h
+    unfold cliStep
+    rw [h]
+    simp only [if_true]
+    cases mergeFileAlone fs cfg acc.1 real <;> rfl
+
+example : fileMatch chainFS ["w"] "a.yaml" = .ok (["w", "a.yaml"], "yaml") := by
+  rw [fileMatch_eq]
+  have h1 : absPath ["w"] "a.yaml" = ["w"] ++ ["a" ++ "." ++ "yaml"] := by
+    have : isAbsPath "a.yaml" = false := by simp [isAbsPath]
+    simp only [absPath, this, splitPath_lit "a.yaml" ["a.yaml"] (by decide)]; decide
+  rw [h1, baseOf_snoc, dirOf_snoc, extOf_snoc "a" "yaml" (by decide)]
+  have h2 : stemOf ("a" ++ "." ++ "yaml") = "a" := by
+    simp only [stemOf, splitOn_dot]; decide
+  rw [h2, findFile_layerFile chainFS_plain (by decide) chainFS_a]
+  rfl
+
+/-! ## renaming -/
+
+/-- **Partial** (see `C03_rename_counterexample`): content-only dependence of the merge on the
+    loaded files.  If `files₂` has the documents of `files₁` with every id (document ids and
+    parent links) renamed by `ρ`, where `ρ` is injective on a set `S` of ids that contains all
+    ids in use and is closed under — and commutes with — the `|matchnull` suffix the parser
+    appends for `$match: null`, then merging `files₂` gives the renamed state of merging
+    `files₁`: same success/error, same data in the same order.  (File ids and paths may differ
+    arbitrarily.) -/
+theorem C03_rename_partial (ρ : String → String) (S : String → Prop) (h : RenOK ρ S)
+    (files₁ files₂ : List LFile)
+    (hin : ∀ f ∈ files₁, ∀ d ∈ f.docs, DocIn S d)
+    (hshape : files₂.map (·.docs) = files₁.map fun f => f.docs.map (renDoc ρ)) :
+    mergeFiles PState.empty files₂ = rmap (renState ρ) (mergeFiles PState.empty files₁) ∧
+    (∀ st₁, mergeFiles PState.empty files₁ = .ok st₁ →
+      ∃ st₂, mergeFiles PState.empty files₂ = .ok st₂ ∧
+        st₂.docs.map (·.2) = st₁.docs.map (·.2)) ∧
+    (∀ st₂, mergeFiles PState.empty files₂ = .ok st₂ →
+      ∃ st₁, mergeFiles PState.empty files₁ = .ok st₁ ∧
+        st₂.docs.map (·.2) = st₁.docs.map (·.2)) ∧
+    (∀ e, mergeFiles PState.empty files₁ = .error e ↔ mergeFiles PState.empty files₂ = .error e) := by
+  have key := mergeFiles_ren h files₁ files₂ hin hshape
+  refine ⟨key, ?_, ?_, ?_⟩
+  · intro st₁ h1
+    rw [h1] at key
+    exact ⟨renState ρ st₁, key, renState_data st₁⟩
+  · intro st₂ h2
+    cases h1 : mergeFiles PState.empty files₁ with
+    | error e => rw [h1, h2] at key; cases key
+    | ok st₁ =>
+      rw [h1, h2] at key
+      cases key
+      exact ⟨st₁, rfl, renState_data st₁⟩
+  · intro e
+    cases h1 : mergeFiles PState.empty files₁ with
+    | error e' =>
+      rw [h1] at key
+      rw [key]
+      constructor <;> intro h' <;> cases h' <;> rfl
+    | ok st₁ =>
+      rw [h1] at key
+      rw [key]
+      constructor <;> intro h' <;> cases h'
+
+/-- Special case: prefixing every id with a fixed string. -/
+theorem C03_rename_prefix (pre : String) (files₁ files₂ : List LFile)
+    (hshape : files₂.map (·.docs) = files₁.map fun f => f.docs.map (renDoc (pre ++ ·))) :
+    (∀ st₁, mergeFiles PState.empty files₁ = .ok st₁ →
+      ∃ st₂, mergeFiles PState.empty files₂ = .ok st₂ ∧
+        st₂.docs.map (·.2) = st₁.docs.map (·.2)) ∧
+    (∀ st₂, mergeFiles PState.empty files₂ = .ok st₂ →
+      ∃ st₁, mergeFiles PState.empty files₁ = .ok st₁ ∧
+        st₂.docs.map (·.2) = st₁.docs.map (·.2)) ∧
+    (∀ e, mergeFiles PState.empty files₁ = .error e ↔ mergeFiles PState.empty files₂ = .error e) :=
+  (C03_rename_partial (pre ++ ·) (fun _ => True) (renOK_prefix pre) files₁ files₂
+    (fun _ _ _ _ => ⟨trivial, fun _ _ => trivial⟩) hshape).2
+
+/-- non-vacuity of the hypotheses of `C03_rename_partial` / `C03_rename_prefix` -/
+example : RenOK (fun s => "x/" ++ s) (fun _ => True) ∧
+    (cexA.map fun f => ({ f with docs := f.docs.map (renDoc ("x/" ++ ·)) } : LFile)).map (·.docs) =
+      cexA.map fun f => f.docs.map (renDoc ("x/" ++ ·)) :=
+  ⟨renOK_prefix "x/", rfl⟩
+
+/-- The unrestricted statement ("any injective renaming of the ids") is FALSE for the model:
+    `swapId` is a bijection on strings, `cexB` is `cexA` renamed by it, both merges succeed, and
+    the data differ.  The reason is the id `patch.id ++ "|matchnull"` that `mergeDocument`
+    invents for `$match: null`: in `cexA` it collides with the id of an existing document (so
+    a later layer targets both), after the renaming it does not.  (Ids produced by
+    `loadFileAndParents` end in `|doc<n>`, so real loads do not collide like this; the
+    hypothesis of `C03_rename_partial` is what makes that precise.) -/
+theorem C03_rename_counterexample :
+    (∀ a b, swapId a = swapId b → a = b) ∧
+    cexB.map (·.docs) = cexA.map (fun f => f.docs.map (renDoc swapId)) ∧
+    (∃ st₁, mergeFiles PState.empty cexA = .ok st₁ ∧ st₁.docs.map (·.2) = [.int 5, .int 5]) ∧
+    (∃ st₂, mergeFiles PState.empty cexB = .ok st₂ ∧ st₂.docs.map (·.2) = [.int 5, .map []]) :=
+  ⟨swapId_injective, rfl, cexA_run, cexB_run⟩
+
+/-! ## cycles -/
+
+/-- A path that is already on the chain of children is a circular reference. -/
+theorem C03_cycle_is_error (fs : FS) (cfg : RootCfg) (fuel : Nat) (path : Comps)
+    (c : Option String) (ids : List String) (chain : List Comps) (h : path ∈ chain) :
+    loadFileAndParents fs cfg (fuel + 1) path c ids chain = .error .circularRef :=
+  lfp_cycle fs cfg fuel path c ids chain h
+
+example : (["a.yaml"] : Comps) ∈ [["a.yaml"]] := List.mem_cons_self
+
+/-- A file whose `$parent` names itself is rejected: `/a.yaml` containing `$parent: a`. -/
+theorem C03_self_parent_rejected :
+    loadFileAndParents selfFS ⟨[], []⟩ loadFuel ["a.yaml"] none [] [] = .error .circularRef ∧
+    mergeFileLayers selfFS ⟨[], []⟩ PState.empty ["a.yaml"] = .error .circularRef := by
+  refine ⟨selfFS_cycle, ?_⟩
+  rw [mergeFileLayers_eq, selfFS_cycle]
+
 end Bkl
